@@ -651,6 +651,61 @@ def fixed_scenarios(ctx):
     return [t1[:1200], '\n'.join(list(ta.values())[1].split('\n')[:12])]
 
 
+def platform_builds(ctx):
+    """finding C19-F3: IntelPlatform-style build(projectDir, createdStructures=[]) — the default list is shared by all calls.
+    Two builds of the same tiny design (two platform objects, one directory); the EDA tool is absent, so build() raises after
+    it has written <top>.v: the second file must equal the first.  KNOWN-FINDING while the defect is in /repo, silent once
+    repaired (a "fixed" entry suppresses nothing), VIOLATION if it comes back."""
+    import shutil, tempfile, importlib
+    py4hw = common.quiet_import()
+    if shutil.which('quartus_sh'):
+        ctx.notes['platform_builds'] = 'skipped: a real quartus_sh is on PATH'; return
+    out = {}
+    for modname, clsname in (('py4hw.external.platforms.intel', 'C10LP'), ('py4hw.external.platforms.terasic', 'DE0')):
+        try:
+            with quiet():
+                cls = getattr(importlib.import_module(modname), clsname)
+        except Exception as ex:
+            out[clsname] = 'not importable: %s' % type(ex).__name__; continue
+        d = tempfile.mkdtemp(prefix='c19_build_')
+        texts = []
+        devnull = os.open(os.devnull, os.O_WRONLY); saved = (os.dup(1), os.dup(2))
+        try:
+            os.dup2(devnull, 1); os.dup2(devnull, 2)          # the make / tool messages of edalize go to the real descriptors
+            for k in range(2):
+                try:
+                    with quiet():
+                        hw = cls()
+                        a = hw.wire('a', 8); r = hw.wire('r', 8)
+                        py4hw.Constant(hw, 'a', 3, a); py4hw.Reg(hw, 'reg', a, r)
+                        hw.build(d)
+                except Exception:
+                    pass                                     # no EDA tool in the sandbox: expected after the files are written
+                f = os.path.join(d, hw.name + '.v')
+                texts.append(open(f).read() if os.path.exists(f) else None)
+        finally:
+            os.dup2(saved[0], 1); os.dup2(saved[1], 2)
+            for fd in saved + (devnull,): os.close(fd)
+            shutil.rmtree(d, ignore_errors=True)
+            dflt = getattr(cls.build, '__defaults__', None) or ()
+            for x in dflt:
+                if isinstance(x, list): x.clear()
+        ctx.count(('fixed', 'F3', clsname))
+        out[clsname] = [None if t is None else len(t) for t in texts]
+        if texts[0] is None or texts[1] is None or not texts[0]:
+            continue                                          # build() did not get as far as writing the Verilog: nothing to compare
+        if L.canon(texts[0]) != L.canon(texts[1]):
+            k = {f['id']: f for f in ctx.known if f.get('status') == 'known'}
+            if 'C19-F3' in k and texts[1] == '':
+                ctx.known_finding('C19-F3', '%s.build(dir) called twice in one process: the second %s.v is empty (%d vs 0 characters); the default '
+                                            'createdStructures=[] of build() is one list shared by all calls' % (clsname, hw.name, len(texts[0])))
+            else:
+                ctx.violation({'what': 'two builds of the same design in one process write different Verilog', 'platform': modname + '.' + clsname,
+                               'scenario': 'platform', 'history': ['%s().build(dir)' % clsname, '%s().build(dir)' % clsname],
+                               'first_len': len(texts[0]), 'second_len': len(texts[1]), 'second_text': texts[1][:300]})
+    ctx.notes['platform_builds'] = out
+
+
 # ------------------------------------------------------------------ driver
 def plan(ctx):
     q = ctx.quick
@@ -685,6 +740,7 @@ def run(ctx):
     ctx.notes['state_scan'] = state_bad or 'module globals %s; self.%s' % (sorted(EXPECTED_GLOBALS), sorted(EXPECTED_SELF))
     ok = True
     samples = fixed_scenarios(ctx)
+    platform_builds(ctx)
     if ctx.violations: ok = False
     records = []
     if ok:
@@ -733,6 +789,11 @@ def run(ctx):
 def replay(rp):
     """re-run the recorded history (deterministic in its seed) and report"""
     ctx = common.Ctx('C19', 'quick', 1)
+    if rp.get('scenario') == 'platform':
+        platform_builds(ctx)
+        if ctx.violations:
+            print('replay: REPRODUCED: %s; history: %s' % (rp.get('what'), rp.get('history'))); return 1
+        print('replay: the platform build scenario runs clean now'); return 0
     if rp.get('scenario') == 'fixed':
         fixed_scenarios(ctx)
         if ctx.violations:
